@@ -148,7 +148,7 @@ def explore(drv, job, k=None, cap=4000, H=None, audit_every=0, order=None, max_d
                 edges[sid][a] = tsid
                 res.merges += 1
                 merges_seen += 1
-                if audit_every and merges_seen % audit_every == 0:
+                if audit_every and merges_seen % audit_every == 1:
                     _audit(drv, job, nh, hist_of[tsid], res)
                 if k is not None and ndev < devs_of[tsid]:
                     # reached with fewer deviations: re-expand from here
